@@ -102,8 +102,13 @@ structure Rep where
 
 def Rep.dis (r : Rep) (c : Case) (what : String) : Rep :=
   { r with st := { r.st with disagree := r.st.disagree + 1 }, msgs := r.msgs ++ [s!"DISAGREE what={what} case={c.key.replace " " "|"}"] }
+/-- a custom text outside the interface of qmail-queue.8 (exit 82, more than two bytes, not starting with D or Z) -/
+def outOfContract (e : QEnd) : Bool :=
+  e.exit == 82 && !e.crashed && e.text.length > 2 && !(e.text.head? == some 68 || e.text.head? == some 90)
+
 def Rep.ora (r : Rep) (c : Case) (kind what : String) : Rep :=
-  { r with st := { r.st with oracle := r.st.oracle + 1 }, msgs := r.msgs ++ [s!"ORACLE kind={kind} what={what} case={c.key.replace " " "|"}"] }
+  let tag := if (kind == "ack-not-exact" || kind == "class") && c.ends.any outOfContract then " known=qq-custom-text-unvalidated" else ""
+  { r with st := { r.st with oracle := r.st.oracle + 1 }, msgs := r.msgs ++ [s!"ORACLE kind={kind} what={what}{tag} case={c.key.replace " " "|"}"] }
 
 def lhostOf (p : Peer) : Bytes := p.loc
 
